@@ -44,6 +44,7 @@ def Cell.mutable : Cell → Bool
 structure St where
   cells : List Cell
   log : List Nat := []
+  ilog : List Nat := []          -- ghost: provenance — the part of `log` written by `Prog.ident` (`logIdent`) only
   raw : List Nat := []
   unmod : Bool := false          -- ghost: the run left the modelled fragment (driver answers `unmodelled`)
   deriving Repr, Inhabited
@@ -93,6 +94,13 @@ def write (l : Loc) (c : Cell) : M Unit := fun st =>
 def logPass (v : HVal) : M Unit := fun st =>
   match v with
   | .ref l => (some (), { st with log := l :: st.log })
+  | .leaf _ => (some (), st)
+
+/-- ghost: `logPass` as executed by `Prog.ident`; the location is additionally recorded in the
+provenance log `ilog`, which nothing else writes and nothing reads -/
+def logIdent (v : HVal) : M Unit := fun st =>
+  match v with
+  | .ref l => (some (), { st with log := l :: st.log, ilog := l :: st.ilog })
   | .leaf _ => (some (), st)
 
 /-! ### reachability -/
